@@ -3292,6 +3292,7 @@ fn check_message(c: &MsgCase, out: &mut CaseOut) {
 
 pub fn property() -> Property {
     Property {
+        fuzz: vec![],
         id: "C01",
         rule: "Values are generated as serde mirror structs and converted through the public API. A case is non-trivial if it contains a character outside the \
                component's unreserved set, a literal '%', a multi-byte character (user, parameter names/values), a method token with a well-known name as proper prefix, \
